@@ -1,5 +1,6 @@
 (* C14 — The route cache is a bounded LRU map and repeats are served from it.
    Property theorems only; every proof is `exact <lemma>`; see CacheFacts.v / TableFacts.v. *)
+From Rux Require Import Base Str Consts Norm Pattern Pat Cache Table PatTable SelectFacts TableLink Sys SysHistory SysMore SysEnd.
 From Rux Require Import Base Cache CacheFacts Table TableFacts.
 
 Section C14.
@@ -66,6 +67,37 @@ Theorem C14_router_key : forall rt m path rid ps,
   exists rest, cache (snd (match_ rt m path)) = (m ++ path, (rid, ps)) :: rest.
 Proof. exact dynamic_match_cached. Qed.
 
+(* end to end (SysEnd.v): on a router built by ANY registration program, with caching on and capacity >= 1, after any
+   history: a request whose lookup is answered by a dynamic route leaves the key of the lookup that hit - method ++
+   normalised path; GET ++ path for a HEAD request answered by the GET route - as the most recent key of the cache, with
+   its route and parameters, and the cache within its bounds *)
+Theorem C14_end_to_end_key : forall progs hooks o ss s h m p path i ps sc pooled,
+  sys_build o ss = Ok s -> o_intercept o = [] -> format_path (o_strict o) p = Ok path ->
+  o_caching o = true -> 1 <= o_cap o ->
+  let s' := sys_run progs hooks s h in
+  fst (quick_match (s_rt s') m p) = QFound i (Some ps) ->
+  let c := cache (s_rt (snd (sys_serve progs hooks s' m p sc pooled))) in
+  (exists m' rest,
+     ((m' = m /\ fst (match_ (s_rt s') m path) = LHit i (Some ps)) \/
+      (m' = GET /\ m = HEAD /\ fst (match_ (s_rt s') m path) = LNone)) /\
+     c = (m' ++ path, (i, ps)) :: rest /\ akeys (nat * params) c = (m' ++ path) :: akeys (nat * params) rest) /\
+  NoDup (akeys (nat * params) c) /\ List.length c <= o_cap o.
+Proof. exact sys_cache_key_gen. Qed.
+
+(* for printable programs the key is determined by the table *)
+Theorem C14_end_to_end_key_table : forall progs hooks o ss s es h m p path i ps sc pooled,
+  sys_build o ss = Ok s -> table_of es s -> o_intercept o = [] ->
+  hist_no_slash h -> no_slash m -> format_path (o_strict o) p = Ok path ->
+  o_caching o = true -> 1 <= o_cap o ->
+  let s' := sys_run progs hooks s h in
+  fst (quick_match (s_rt s') m p) = QFound i (Some ps) ->
+  let c := cache (s_rt (snd (sys_serve progs hooks s' m p sc pooled))) in
+  let key := match spec_select (map entry_sroute es) m path with Some _ => m ++ path | None => GET ++ path end in
+  (exists rest, c = (key, (i, ps)) :: rest) /\
+  (exists rest, akeys (nat * params) c = key :: rest) /\
+  NoDup (akeys (nat * params) c) /\ List.length c <= o_cap o.
+Proof. exact sys_cache_key. Qed.
+
 Print Assumptions C14_refines_spec.
 Print Assumptions C14_router_key.
 Print Assumptions C14_bound_nodup.
@@ -79,3 +111,5 @@ Print Assumptions C14_delete_only.
 Print Assumptions C14_delete_absent.
 Print Assumptions C14_remove_other_untouched.
 Print Assumptions C14_set_then_get.
+Print Assumptions C14_end_to_end_key.
+Print Assumptions C14_end_to_end_key_table.
